@@ -207,9 +207,8 @@ def run_impl(modname, cases, env=None, nworkers=4, timeout=3000, tag="normal"):
                 elif rc == 0:
                     raise ToolFailure(f"worker exited 0 without finishing: {err[-500:]}")
                 else:
-                    why = f"exit{rc}"
-                    if "Traceback" in err and "harness" in err and "vectorizers" not in err.split("Traceback")[-1]:
-                        raise ToolFailure(f"worker failed ({tag}): {err[-1500:]}")
+                    # the worker catches every exception of run_impl, so a plain non-zero exit is a tool problem
+                    raise ToolFailure(f"worker failed ({tag}, exit {rc}): {err[-1500:]}")
                 results[rest[0]] = {"crash": why, "stderr": err[-400:]}
                 if rest[1:]:
                     nxt.append((rest[1:], start(rest[1:])))
